@@ -130,9 +130,31 @@ JOBS += [
     lemma('bitunpack32_1bit'), lemma('bitunpack8_4bit'), lemma('bitunpack8_8bit'),
 ]
 
+# ---- AVX2 / AVX-512 bool kernels, bounded in count ---------------------------------------------------
+IA32X = 'stubs/ia32_model.c: C models of psrldqi128, vec_ext_v8hi, pbroadcastb512_gpr_mask, ptestmb512, loaddquqi512_mask (masked-off bytes not accessed) (A6; validated natively against the instructions)'
+AVX = dict(prop='C15', overlays=[], loop_contracts=False, extra_sources=['stubs/mem_stubs.c', 'stubs/ia32_model.c'],
+           trusted=[IA32, IA32X], level='bounded', bound='count 0..130, all data', wip=True, timeout=600)
+JOBS += [
+    dict(name='c15_avx512_pack_bools_bounded', entry='h_avx512_pack_bools_bounded', harness='harness/C15/avx512.c',
+         defines=['__AVX512F__=1', 'CQV_MEMCPY_EXACT=16'], functions=['carquet_avx512_pack_bools'],
+         unwindset=['carquet_avx512_pack_bools.0:4', 'memcpy.0:17', '__builtin_ia32_ptestmb512.0:65', '__builtin_ia32_loaddquqi512_mask.0:65'], **AVX),
+    dict(name='c15_avx512_unpack_bools_bounded', entry='h_avx512_unpack_bools_bounded', harness='harness/C15/avx512.c',
+         defines=['__AVX512F__=1', 'CQV_MEMCPY_EXACT=16'], functions=['carquet_avx512_unpack_bools'],
+         unwindset=['carquet_avx512_unpack_bools.0:4', 'carquet_avx512_unpack_bools.1:65', 'memcpy.0:17',
+                    '__builtin_ia32_pbroadcastb512_gpr_mask.0:65'], **AVX),
+    dict(name='c15_avx2_pack_bools_bounded', entry='h_avx2_pack_bools_bounded', harness='harness/C15/avx2.c',
+         defines=['__AVX2__=1'], functions=['carquet_avx2_pack_bools'],
+         unwindset=['carquet_avx2_pack_bools.0:18', 'carquet_avx2_pack_bools.1:9', 'h_avx2_pack_bools_bounded.0:132',
+                    '__builtin_ia32_punpcklbw128.0:9', '__builtin_ia32_psrldqi128.0:17'], **AVX),
+]
+JOBS[-1]['bound'] = 'count 0..130, all input bytes in {0,1} (documented kernel domain)'
+
 # ---- status after validation (ok on /repo AND a deliberate breakage of the function detected) -----
 VALIDATED = set("""
 c15_dispatch_isa_subset c15_scalar_prefix_sum_i32 c15_scalar_prefix_sum_i64 c15_scalar_unpack_bools c15_scalar_build_null_bitmap
+c15_sse_gather_i64 c15_sse_gather_float c15_sse_gather_double c15_sse_memset_small_bounded c15_sse_memcpy_small_bounded
+c15_avx512_pack_bools_bounded c15_avx512_unpack_bools_bounded c15_avx2_pack_bools_bounded c15_sse_byte_stream_split_decode_double
+c15_sse_match_length_bounded c15_sse_byte_stream_split_encode_float_bounded c15_sse_byte_stream_split_decode_float_bounded
 c15_sse_crc32c_check_value c15_sse_unpack_bools c15_sse_crc32c c15_scalar_match_copy_bounded c15_sse_match_copy_bounded
 c15_scalar_gather_i32 c15_scalar_gather_i64 c15_scalar_gather_float
 c15_scalar_gather_double c15_scalar_byte_split_encode_float c15_scalar_byte_split_decode_float
@@ -143,13 +165,17 @@ c15_sse_fill_def_levels c15_sse_prefix_sum_i32 c15_sse_prefix_sum_i64 c15_sse_ga
 c15_sse_bitunpack8_4bit c15_sse_bitunpack8_8bit c15_sse_pack_bools_01
 c15_sse_find_run_length_i32 c15_sse_count_non_nulls c15_sse_build_null_bitmap
 """.split())
-THOROUGH = {'c15_sse_gather_i64': 300, 'c15_sse_gather_float': 300, 'c15_sse_gather_double': 300, 'c15_sse_crc32c': 100, 'c15_scalar_match_copy_bounded': 105, 'c15_sse_match_copy_bounded': 115, 'c15_scalar_byte_split_encode_double': 220, 'c15_scalar_byte_split_decode_double': 60,
+THOROUGH = {'c15_sse_byte_stream_split_encode_double': 800, 'c15_sse_byte_stream_split_decode_double': 85, 'c15_sse_match_length_bounded': 270, 'c15_sse_byte_stream_split_decode_float_bounded': 350, 'c15_sse_gather_i64': 300, 'c15_sse_gather_float': 510, 'c15_sse_gather_double': 300, 'c15_sse_crc32c': 100, 'c15_scalar_match_copy_bounded': 105, 'c15_sse_match_copy_bounded': 115, 'c15_scalar_byte_split_encode_double': 220, 'c15_scalar_byte_split_decode_double': 60,
             'c15_sse_gather_i32': 300, 'c15_sse_prefix_sum_i32': 95, 'c15_sse_prefix_sum_i64': 90}
-NOTES = {}
+NOTES = {
+    'c15_sse_prefix_sum_i32_ub': 'FINDING (open): tail loop still does int32 sum += values[i] (signed overflow); vector part wraps. Functional job c15_sse_prefix_sum_i32 runs without the signed-overflow check.',
+    'c15_sse_prefix_sum_i64_ub': 'FINDING (open): tail loop still does int64 sum += values[i] (signed overflow); vector part wraps. Functional job c15_sse_prefix_sum_i64 runs without the signed-overflow check.',
+    'c15_scalar_crc32c_check_value': 'spec sanity check only (9 table entries exercised); not validated by a breakage',
+}
 for j in JOBS:
     if j['name'] in VALIDATED:
         j['wip'] = False
     if j['name'] in THOROUGH:
-        j['tier'] = 'thorough'; j['est_s'] = THOROUGH[j['name']]; j['timeout'] = 900
+        j['tier'] = 'thorough'; j['est_s'] = THOROUGH[j['name']]; j['timeout'] = 1500
     if j['name'] in NOTES:
         j['note'] = NOTES[j['name']]
